@@ -79,6 +79,7 @@ theorem applyOp_good (b : Bufs) (op : Op) {s s' : MStream} {b' : Bufs}
     simp only [applyOp, select, f, ↓reduceIte, Option.map_some, Option.some.injEq, Prod.mk.injEq] at h
     obtain ⟨rfl, rfl⟩ := h
     exact same (by rw [unmark_selectGo_ok 0 rs s hsel]; exact hwn) g
+  | selectFail => simp [applyOp] at h
   | invert =>
     simp only [applyOp, Option.some.injEq, Prod.mk.injEq] at h
     obtain ⟨rfl, rfl⟩ := h
@@ -195,6 +196,7 @@ theorem applyOp_dirty (b : Bufs) (op : Op) {s s' : MStream} {b' : Bufs}
     simp only [applyOp, select, f, ↓reduceIte, Option.map_some, Option.some.injEq, Prod.mk.injEq] at h
     obtain ⟨rfl, rfl⟩ := h
     exact mkGood (by rw [unmark_selectGo_ok 0 rs s hsel]; exact hwn) g
+  | selectFail => simp [applyOp] at h
   | invert =>
     simp only [applyOp, Option.some.injEq, Prod.mk.injEq] at h
     obtain ⟨rfl, rfl⟩ := h
@@ -288,5 +290,30 @@ theorem runChain_wellnested : ∀ (ops : List Op) (good : Bool) (b : Bufs) (s : 
       | false =>
         simp only [Bool.false_eq_true, ↓reduceIte] at hadm1
         exact ih (op.next false) b1 s1 hadm2 (applyOp_dirty b op hadm1 inv hsel.1 ha) hsel.2 out b' h
+
+/-- is the operation a `select`? -/
+def isSelect : Op → Bool
+  | .select _ => true
+  | _ => false
+
+theorem runChain_selects (ops : List Op) (hall : ∀ op ∈ ops, isSelect op = true) :
+    ∀ (b : Bufs) (s : MStream), WellNested (unmark s) → chainSelOk ops b s = true →
+      ∃ out, runChain ops b s = some (out, b) ∧ unmark out = unmark s := by
+  induction ops with
+  | nil => intro b s _ _; exact ⟨s, rfl, rfl⟩
+  | cons op ops ih =>
+    intro b s hwn hsel
+    have hop := hall op (by simp)
+    cases op with
+    | select rs =>
+      simp only [chainSelOk, Op.selOkAt, Bool.and_eq_true] at hsel
+      obtain ⟨g, f⟩ := select_good rs s hwn hsel.1
+      have ha : applyOp b (.select rs) s = some (selectGo 0 rs s, b) := by simp [applyOp, select, f]
+      have hu := unmark_selectGo_ok 0 rs s hsel.1
+      rw [ha] at hsel
+      obtain ⟨out, h1, h2⟩ := ih (fun o ho => hall o (by simp [ho])) b (selectGo 0 rs s)
+        (by rw [hu]; exact hwn) hsel.2
+      exact ⟨out, by simp [runChain, ha, h1], by rw [h2, hu]⟩
+    | _ => simp [isSelect] at hop
 
 end Genshi.Tf
